@@ -35,15 +35,16 @@ func structuralCorpus(e *core.Env, n int, mod func(i int, o *pgen.StructOpts)) [
 	var cases []*pgen.Case
 	for i := 0; i < n; i++ {
 		o := pgen.StructOpts{
-			Format:   formats[i%3],
-			SamePkg:  (i/3)%4 == 1,
-			SkipCopy: (i/12)%3 == 1,
-			UseZero:  (i/36)%2 == 1,
-			TopKind:  topKinds[(i/2)%len(topKinds)],
-			NMethods: 1 + r.Intn(3),
-			Depth:    2 + r.Intn(3),
-			Hostile:  r.Intn(3) == 0,
-			Seed:     e.Seed*7919 + int64(i),
+			Format:      formats[i%3],
+			SamePkg:     (i/3)%4 == 1,
+			SkipCopy:    (i/12)%3 == 1,
+			UseZero:     (i/36)%2 == 1,
+			TopKind:     topKinds[(i/2)%len(topKinds)],
+			NMethods:    1 + r.Intn(3),
+			Depth:       2 + r.Intn(3),
+			Hostile:     r.Intn(3) == 0,
+			Seed:        e.Seed*7919 + int64(i),
+			PointerKeys: true,
 		}
 		if mod != nil {
 			mod(i, &o)
